@@ -169,6 +169,8 @@ class AbsInt:
         self.steps = 0
         self.extra_exc_parents = extra_exc_parents or {}
         self.inlined = set()
+        self.global_overrides = {}      # (module name, global name) -> abstract value
+        self.method_hooks = []          # callables (interp, base, name, args, kwargs, node) -> value | _NO
 
     # --------------------------------------------------------------- explore
     def explore(self, thunk, limit=64):
@@ -384,6 +386,11 @@ class AbsInt:
         elif isinstance(t, ast.Attribute):
             base = self.ev(t.value, env, m)
             if isinstance(base, AObj):
+                if base.cls is not None:
+                    o, sa = self.p.lookup_method(base.cls, '__setattr__')
+                    if sa is not None:
+                        self.call_function(sa, [base, t.attr, v], {}, t)
+                        return
                 base.attrs[t.attr] = v
                 base.stores.append((t.attr, v, t))
                 log_event('store', base, t.attr, v)
@@ -405,6 +412,8 @@ class AbsInt:
     def _v_Name(self, e, env, m):
         if e.id in env:
             return env[e.id]
+        if m is not None and (m.name, e.id) in self.global_overrides:
+            return self.global_overrides[(m.name, e.id)]
         try:
             return self.f.global_value(m, e.id)
         except Unfoldable:
@@ -428,6 +437,8 @@ class AbsInt:
                         return Opaque(f'class attr {e.attr}')
                 o, fn = self.p.lookup_method(base.cls, e.attr)
                 if fn is not None:
+                    if any(isinstance(d, ast.Name) and d.id == 'property' for d in fn.node.decorator_list):
+                        return self.call_function(fn, [base], {}, e)
                     return ('bound', base, fn)
             raise AbsRaise('AttributeError', e, implicit=True, msg=e.attr)
         if isinstance(base, Module):
@@ -444,6 +455,8 @@ class AbsInt:
                     return Opaque(e.attr)
             o, fn = self.p.lookup_method(base.info, e.attr)
             if fn is not None:
+                if _is_classmethod(fn.node):
+                    return ('bound', base, fn)
                 return FuncRef(fn)
             return Opaque(e.attr)
         if isinstance(base, ExtRef):
@@ -548,9 +561,19 @@ class AbsInt:
             lb = b if isinstance(b, LenV) else (LenV(b, ()) if isinstance(b, int) else None)
             if la is not None and lb is not None:
                 if isinstance(op, ast.Add):
-                    return LenV(la.const + lb.const, tuple(sorted(la.vars + lb.vars)), la.minvar + lb.minvar)
-                if isinstance(op, ast.Sub) and not lb.vars:
-                    return LenV(la.const - lb.const, la.vars, la.minvar)
+                    r = LenV(la.const + lb.const, la.vars + lb.vars)
+                    return r if r.vars else r.const
+                if isinstance(op, ast.Sub):
+                    rest = list(la.vars)
+                    okk = True
+                    for v in lb.vars:
+                        if v in rest:
+                            rest.remove(v)
+                        else:
+                            okk = False
+                    if okk:
+                        r = LenV(la.const - lb.const, rest)
+                        return r if r.vars else r.const
             return Opaque('arithmetic on a symbolic length')
         # sequences
         if isinstance(op, ast.Add) and (isinstance(a, (AList, list, tuple)) or isinstance(b, (AList, list, tuple))):
@@ -619,6 +642,10 @@ class AbsInt:
                 return bool(_CMPOPS[type(op)](a, b))
             except Exception:
                 raise AbsRaise('TypeError', node, implicit=True)
+        if isinstance(op, (ast.Eq, ast.NotEq)) and (a is None or b is None):
+            other = b if a is None else a
+            if isinstance(other, (AV, LenV, AList, ADict, AObj)) or _is_concrete(other):
+                return isinstance(op, ast.NotEq) if other is not None else isinstance(op, ast.Eq)
         if isinstance(op, (ast.Is, ast.IsNot)):
             if a is None or b is None:
                 other = b if a is None else a
@@ -628,6 +655,8 @@ class AbsInt:
             return None
         if isinstance(op, (ast.In, ast.NotIn)):
             res = None
+            if isinstance(b, AList) and not b.has_var() and all(_is_concrete(x) for x in b.items):
+                b = list(b.items)
             if isinstance(b, ADict) and _hashable_const(a):
                 res = a in b.d
             elif _hashable_const(a) and isinstance(b, (dict, set, frozenset, range)):
@@ -647,6 +676,8 @@ class AbsInt:
                     res = False
                 elif a.is_const:
                     res = a.const in b
+                elif hi - lo < 4096 and all(x in b for x in range(lo, hi + 1)):
+                    res = True
             if res is None:
                 return None
             return res if isinstance(op, ast.In) else not res
@@ -666,8 +697,24 @@ class AbsInt:
         if isinstance(a, LenV) and isinstance(b, LenV):
             if a.vars == b.vars:
                 return _cmp_interval(op, a.const - b.const, a.const - b.const)
+            ra, rb = list(a.vars), list(b.vars)
+            for v in list(ra):
+                if v in rb:
+                    ra.remove(v)
+                    rb.remove(v)
+            if not ra:      # a - b = const diff - sum(rb)
+                hi = a.const - b.const - sum(VAR_MINLEN.get(v, 0) for v in rb)
+                return _cmp_interval(op, -10 ** 9, hi)
+            if not rb:
+                lo = a.const - b.const + sum(VAR_MINLEN.get(v, 0) for v in ra)
+                return _cmp_interval(op, lo, 10 ** 9)
             return None
         if isinstance(op, (ast.Eq, ast.NotEq)):
+            # sequences of definitely different length are different
+            for x, y in ((a, b), (b, a)):
+                if isinstance(x, AList) and isinstance(y, (bytes, tuple, list, str, bytearray)):
+                    if x.minlen() > len(y) or (not x.has_var() and len(x.items) != len(y)):
+                        return isinstance(op, ast.NotEq)
             # values of different abstract kinds
             if isinstance(a, (AList, ADict, AObj)) or isinstance(b, (AList, ADict, AObj)):
                 return None
@@ -995,6 +1042,13 @@ class AbsInt:
             return Opaque('set of symbolic')
         if f in (int,) and args and isinstance(args[0], AV):
             return args[0]
+        if f is ord and len(args) == 1 and isinstance(args[0], AList):
+            if len(args[0].items) == 1 and not isinstance(args[0].items[0], SeqVar):
+                it = args[0].items[0]
+                if isinstance(it, (int, AV)):
+                    return it
+                return Opaque(f'ord of {it!r}')
+            raise AbsRaise('TypeError', node, implicit=True)
         if f is divmod and len(args) == 2:
             x, y = _as_av(args[0]), _as_av(args[1])
             if x is not None and y is not None and not (x.is_const and y.is_const):
@@ -1038,13 +1092,26 @@ class AbsInt:
     def length_of(self, v, node=None):
         if isinstance(v, AList):
             c = sum(1 for x in v.items if not isinstance(x, SeqVar))
-            vs = tuple(x.name for x in v.items if isinstance(x, SeqVar))
-            mn = sum(x.minlen for x in v.items if isinstance(x, SeqVar))
+            c = 0
+            vs = []
+            for x in v.items:
+                if isinstance(x, SeqVar):
+                    VAR_MINLEN[x.name] = x.minlen
+                    vs.append(x.name)
+                elif hasattr(x, 'size_var'):
+                    sv = x.size_var()
+                    if isinstance(sv, int):
+                        c += sv
+                    else:
+                        vs.append(sv)
+                else:
+                    c += 1
             if not vs:
                 return c
-            return LenV(c, vs, mn)
+            return LenV(c, vs)
         if isinstance(v, SeqVar):
-            return LenV(0, (v.name,), v.minlen)
+            VAR_MINLEN[v.name] = v.minlen
+            return LenV(0, (v.name,))
         if isinstance(v, ADict):
             return len(v.d)
         if _is_concrete(v):
@@ -1055,6 +1122,10 @@ class AbsInt:
         return Opaque('len')
 
     def method(self, base, name, args, kwargs, node):
+        for hook in self.method_hooks:
+            r = hook(self, base, name, args, kwargs, node)
+            if r is not _NO:
+                return r
         if isinstance(base, ADict):
             if name == 'update':
                 new = {}
@@ -1119,8 +1190,8 @@ class AbsInt:
             else:
                 base.extend(self.iterate(args[0], node, keep_vars=True))
             return None
-        if isinstance(base, AV) and name == 'bit_length' and not args:
-            return ('bit_length', base)
+        if isinstance(base, int) and not isinstance(base, bool) and name == 'bit_length' and not args:
+            return base.bit_length()
         if isinstance(base, str):
             if all(_is_concrete(a) for a in args) and all(_is_concrete(v) for v in kwargs.values()) and name in (
                     'format', 'join', 'replace', 'split', 'startswith', 'endswith', 'lower', 'upper', 'strip'):
@@ -1141,15 +1212,24 @@ def _shrunk(sv):
     return nv
 
 
+VAR_MINLEN = {}     # name of a symbolic length -> its minimum
+
+
 class LenV:
     """len() of a sequence with symbolic parts: const + sum(len(var))."""
-    def __init__(self, const, vars_, minvar=0):
+    def __init__(self, const, vars_, minvar=None):
         self.const = const
-        self.vars = tuple(vars_)
-        self.minvar = minvar
+        self.vars = tuple(sorted(vars_))
+        self.minvar = sum(VAR_MINLEN.get(v, 0) for v in self.vars) if minvar is None else minvar
 
     def __repr__(self):
         return ' + '.join([str(self.const)] + [f'len({v})' for v in self.vars])
+
+    def __eq__(self, other):
+        return isinstance(other, LenV) and self.const == other.const and self.vars == other.vars
+
+    def __hash__(self):
+        return hash((self.const, self.vars))
 
 
 _NO = object()
@@ -1234,7 +1314,7 @@ def _cmp_interval(op, lo, hi):
     return None
 
 
-def _cmp_len(op, lv: LenV, n: int):
+def _cmp_len(op, lv: LenV, n):
     lo = lv.const + lv.minvar
     hi = 10 ** 9
     return _cmp_interval(op, lo - n, hi - n)
